@@ -51,7 +51,7 @@ def extract():
             "List": bool(re.search(r"NonConstantValueInner::List\(items\) => \{ let mut variables = vec!\[\]; for item in items \{ variables\.extend\(item\.item\.variables\(\)\); \} variables \}", vf)),
             "rest_empty": bool(re.search(r"_ => vec!\[\],", vf)),
         }
-        if not (X["variables_fn"]["Variable"] and X["variables_fn"]["rest_empty"]):
+        if not (X["variables_fn"]["Variable"] and X["variables_fn"]["rest_empty"] and X["variables_fn"]["Object"]):
             raise Inconclusive("encoding not regenerable: NonConstantValueInner::variables has an unrecognised shape")
     i = msrc.index("pub fn reachable_variables(&self) -> BTreeSet<VariableNameWrapper>")
     rv = norm(msrc[i:msrc.index("\n    }\n", i)])
@@ -253,8 +253,6 @@ def main():
     os.makedirs(os.path.join(REPLAYS, PROP), exist_ok=True)
     try:
         binary = build_driver()
-        X = extract()
-        shapes = node_shapes(B)
 
         def replay(tree, what, tag):
             rp = os.path.join(REPLAYS, PROP, tag)
@@ -266,6 +264,28 @@ def main():
             with open(os.path.join(rp, "replay.sh"), "w") as f:
                 f.write("#!/bin/bash\n%s < %s/input.jsonl\nexit 1\n" % (binary, rp))
             return rp
+
+        # ---- stage 0 (not solver-decided; a guard that does not depend on the translator): fixed probe trees through the real code
+        V = lambda n: {"k": "var", "n": n}
+        O = lambda *es: {"k": "obj", "e": [["k%d" % i, e] for i, e in enumerate(es)]}
+        guard = [
+            [{"t": "scalar", "name": "f", "args": [["a", V("x")], ["b", O(V("y"))]]}],
+            [{"t": "scalar", "name": "f", "args": [["a", O({"k": "int", "v": "1"}, V("y"))]]}],
+            [{"t": "scalar", "name": "f", "args": [["a", O(O(V("deep")))]]}],
+            [{"t": "scalar", "name": "f", "args": [["a", O(O({"k": "null"}, V("deep2")), V("z"))]]}],
+            [{"t": "linked", "name": "n", "args": [["id", V("id")], ["w", O(V("wv"))]], "children": [{"t": "scalar", "name": "g", "args": [["q", V("q")], ["r", O(V("r"))]]}]}],
+            [{"t": "fragment", "on": "T", "children": [{"t": "scalar", "name": "h", "args": [["p", O(V("p"))]]}]}],
+            [{"t": "linked", "name": "n", "args": [], "children": [{"t": "fragment", "on": "T", "children": [{"t": "scalar", "name": "h", "args": [["p", V("p1")], ["s", O(V("p2"), V("p3"))]]}]}]}],
+        ]
+        for tree, (u_nat, c_nat, text) in zip(guard, run_driver(binary, guard)):
+            missing = sorted(set(u_nat) - set(c_nat))
+            if missing:
+                violations.append(("probe %s: operation text %r uses $%s, which get_reachable_variables does not collect (%r)" % (json.dumps(tree), text, ", $".join(missing), c_nat),
+                                   replay(tree, "a variable used by the printed operation is not collected (native probe guard)", "guard_%d" % len(violations))))
+        samples.append({"native_probe_guard_trees": len(guard)})
+
+        X = extract()
+        shapes = node_shapes(B)
 
         # ---- translator validation: concrete trees through the encoding's two functions and the real code
         probes = [
